@@ -107,6 +107,9 @@ func (p *Plugin) validate(doc []byte, chunks []int) (*adminapi.ValidateConfigRes
 	if p.FailTransport > 0 {
 		p.FailTransport--
 		p.mu.Unlock()
+		if p.w != nil {
+			p.w.InjectedFault()
+		}
 		return nil, status.Error(codes.Unavailable, "injected plugin transport failure")
 	}
 	p.mu.Unlock()
